@@ -24,7 +24,7 @@ BAD_REPLIES = {
 
 def behaviour(rng, k):
     """-> (fakegen name, reply bytes or None, model behaviour token, files this generator means to write [(path, content)])"""
-    kind = rng.choice(["ok0", "okfiles", "okfiles", "missing", "notexec", "exit1", "exit255", "sigkill", "sigsegv", "stderr", "bigstderr", "bigout", "bigboth", "noread", "empty", "replyexit1", "replysigkill", "truncated", "truncated", "truncated-after-files", "bad", "bad-after-files"])
+    kind = rng.choice(["ok0", "okfiles", "okfiles", "missing", "notexec", "exit1", "exit255", "sigkill", "sigsegv", "stderr", "bigstderr", "bigout", "bigboth", "noread", "empty", "replyexit1", "replysigkill", "truncated", "truncated", "truncated-after-files", "bad", "bad-after-files", "oktagged", "bad-tags", "bad-tags"])
     files = [("g%d_%d.txt" % (k, j), "content of %d/%d\n" % (k, j) * rng.choice([1, 3])) for j in range(rng.choice([1, 2, 3]))]
     if rng.random() < 0.2:
         files.append(("sub%d/nested.txt" % k, "needs a directory that does not exist"))
@@ -51,6 +51,24 @@ def behaviour(rng, k):
         return "gen-replyexit1-%d" % k, valid, "run:1:0:1:" + valid.hex(), kind
     if kind == "replysigkill":
         return "gen-replysigkill-%d" % k, valid, "run:1:0:sig:" + valid.hex(), kind
+    if kind in ("oktagged", "bad-tags"):
+        # tagged fields a newer generator might send: unknown ones are skipped (tag, size, that many bytes) up to the end marker; anything else is a reply that cannot be decoded
+        extra = lambda: rng.choice([b"\x0c\x00", b"\x14\x08ab", b"\x0c\x00\x10\x04x", b"\x04\x0c\x00\x00\x00", b"\x1c\x04\xfc"])
+        body = bytes([len(files) << 2])
+        for j, (p_, c_) in enumerate(files):
+            body += dc.vstr(p_) + dc.vstr(c_) + (extra() if rng.random() < 0.7 else b"") + b"\xfc"
+        if kind == "oktagged":
+            body += b"\x04\x00\x01" + dc.vstr("note %d" % k) + extra() + b"\xfc" if rng.random() < 0.5 else b"\x00"
+            return "gen-reply-%d" % k, body, "run:1:0:0:" + body.hex(), kind
+        one = dc.vstr("gen%d.txt" % k) + dc.vstr("hello")
+        bad = rng.choice([b"\x04" + one + b"\x0c\x00",                      # tag 3, size 0, then the end of the reply where the end marker should be
+                          b"\x04" + one + b"\x0c\x00\x00",                  # ... then what looks like an empty diagnostic list
+                          b"\x04" + one + b"\x0c",                            # a tag and nothing else
+                          b"\x04" + one + b"\x14\x28ab\xfc\x00",            # a tagged field longer than the reply
+                          b"\x04" + one + b"\x00\x00",                        # tag 0 with size 0 and no end marker
+                          b"\x08" + one + b"\x0c\x00" + one + b"\xfc\x00",    # the first file's tags never end; a second file follows
+                          b"\x00\x04\x00\x01" + dc.vstr("m") + b"\x0c\x00"])  # the same in a diagnostic
+        return "gen-reply-%d" % k, bad, "run:1:0:0:" + bad.hex(), kind
     if kind == "truncated-after-files":
         # every file is complete, the diagnostics are missing or cut
         fl = dc.enc_reply(files, [])[:-1]
@@ -67,9 +85,33 @@ def behaviour(rng, k):
     return "gen-reply-%d" % k, BAD_REPLIES[name], "run:1:0:0:" + BAD_REPLIES[name].hex(), "bad:" + name
 
 
+def spec_pairs(args):
+    """key=value pairs of a generator specification's argument part: ',' separates, the first '=' of a pair divides it, a backslash before ',' or '=' makes
+    that character ordinary, every other backslash is itself"""
+    if not args:
+        return []
+    pairs, cur, i = [], [[], None], 0
+    while i < len(args):
+        c = args[i]
+        if c == "\\" and i + 1 < len(args) and args[i + 1] in ",=":
+            (cur[0] if cur[1] is None else cur[1]).append(args[i + 1])
+            i += 2
+            continue
+        if c == ",":
+            pairs.append(cur)
+            cur = [[], None]
+        elif c == "=" and cur[1] is None:
+            cur[1] = []
+        else:
+            (cur[0] if cur[1] is None else cur[1]).append(c)
+        i += 1
+    pairs.append(cur)
+    return [("".join(k), "".join(v or [])) for k, v in pairs]
+
+
 def common_request(sin, args):
     """the request without the generator's own arguments (a dictionary appended at the end)"""
-    pairs = [] if not args else [x.split("=") for x in args.split(",")]
+    pairs = spec_pairs(args)
     tail = bytes([len(pairs) << 2]) + b"".join(dc.vstr(k) + dc.vstr(v) for k, v in pairs)
     return sin[:-len(tail.hex())] if sin.endswith(tail.hex()) else sin + "?"
 
@@ -90,7 +132,7 @@ def run(ck):
         gens, fs, kinds = [], {}, []
         for k in range(ng):
             name, reply, mtok, kind = behaviour(rng, k)
-            gens.append((name, rng.choice([None, "k=v", "a=b,c=d", "k=v,k=v", "a=1,b=2,a=1", "x=,x=,y=x", "k=v,k=w,k=v,k=v"]), reply if reply else None, mtok))
+            gens.append((name, rng.choice([None, "k=v", "a=b,c=d", "k=v,k=v", "a=1,b=2,a=1", "x=,x=,y=x", "k=v,k=w,k=v,k=v", "root=\\\\server\\share,flag=1", "p=a\\\\b", "k=x\\,y,z=1", "k\\=e=v", "w=tr\\\\", "a=b\\c\\\\d\\,e"]), reply if reply else None, mtok))
             kinds.append(kind)
         # what the file system will answer for every file of every decodable reply
         mraw = core.run_model("main", ["main - 0 G %s FS" % " ".join(g[3] for g in gens)])[0]
@@ -139,7 +181,7 @@ def run(ck):
     m = core.run_model("main", mlines)
     ck.stream("generators", description="the real slicec binary with 1..3 fake generators, each drawn from the behaviour catalogue {ok with 0..n files (also into a missing sub-directory), missing executable, not executable, "
               "exit 1/255, killed by SIGKILL/SIGSEGV (also after writing a complete reply), stderr output with exit 0 (a line, or a megabyte on stderr, on stdout, or on both), exits without reading stdin, empty reply, valid reply but exit 1, reply truncated at a random byte or right after the file sequence, complete files followed by undecodable diagnostics, "
-              "8 undecodable replies (invalid UTF-8/bool/level, huge sizes, missing tag end, garbage)} x output directory {absent, given, missing} x pre-existing files {identical, different}. "
+              "replies with unknown tagged fields (skipped) and with tag sections that never end or overrun, 8 undecodable replies (invalid UTF-8/bool/level, huge sizes, missing tag end, garbage)} x own arguments with backslashes, doubled and before separators  x output directory {absent, given, missing} x pre-existing files {identical, different}. "
               "Compared with the driver model: every startable generator started exactly once with the same request, exit status, one error naming each failing generator, exactly the model's files written below the "
               "output directory with the reply's contents, identical files left untouched, nothing written for failing generators.")
     for (gens, mat, fs, prefix, outmode, kinds), line, oo, mo in zip(metas, rlines, o, m):
